@@ -124,3 +124,31 @@ Proof.
     (assert (Hp : (length r < length input)%nat) by (apply (next_token_progress _ _ _ En); congruence);
      specialize (IH r ltac:(lia)); destruct (lex_all f r); [discriminate|contradiction]).
 Qed.
+
+(* ---- the end-of-input token is produced only when nothing but white space is left (no sentinel byte inside the text) *)
+Lemma lookup_kw_keywords_not_eof w : lookup_kw keywords w <> TEOF.
+Proof.
+  unfold keywords. cbn [lookup_kw].
+  repeat match goal with
+         | |- context [if ?b then _ else _] => destruct b
+         end; discriminate.
+Qed.
+
+Theorem eof_only_at_end input t r : next_token input = (t, r) -> ttyp t = TEOF -> skip_ws input = [].
+Proof.
+  unfold next_token. destruct (skip_ws input) as [|c l] eqn:El; [reflexivity|].
+  repeat match goal with
+         | |- context [if ?b then _ else _] => destruct b eqn:?
+         end;
+    try (intros E; inversion E; subst; cbn [ttyp tok] in *; discriminate).
+  - destruct (read_string c l []) as [s r']. intros E; inversion E; subst. cbn [ttyp tok]. discriminate.
+  - destruct (read_ident_or_kw (c :: l)) as [w r']. intros E; inversion E; subst. cbn [ttyp tok].
+    intros H. exfalso. exact (lookup_kw_keywords_not_eof w H).
+  - destruct (read_number (c :: l)) as [n r']. intros E; inversion E; subst. cbn [ttyp tok]. discriminate.
+Qed.
+
+Lemma skip_ws_nil_all_space l : skip_ws l = [] -> forallb is_space l = true.
+Proof.
+  induction l as [|c r IH]; [reflexivity|]. cbn [skip_ws forallb].
+  destruct (is_space c); [intros H; rewrite (IH H); reflexivity|discriminate].
+Qed.
